@@ -5,7 +5,7 @@
 From Coq Require Import ZArith List Bool Reals Lra Lia.
 From Coquelicot Require Import Coquelicot.
 From CV Require Import Base.Num Base.RNum C18.ValueModel C06.RestraintModel C01.ForceModel C01.ForceProofs.
-From CV Require Import C01.PolarProofs C01.SuperposModel C01.SuperposProofs.
+From CV Require Import C01.PolarProofs C01.HistProofs C01.SuperposModel C01.SuperposProofs.
 Import ListNotations.
 Local Open Scope R_scope.
 
@@ -213,22 +213,32 @@ Theorem C01_guard_widen : forall cell c (s : SYS), cvc_guard cell c s -> cvc_gua
 Proof. exact cvc_guard_widen. Qed.
 Print Assumptions C01_guard_widen.
 
+(* histogramRestraint: E = 1/2 k n sum_g (p_g - ref_g)^2, p_g = sum of the Gaussians of the variables at grid point g *)
+Theorem C01_bias_force_correct_histogramRestraint : forall k norm sigma grid vs ws x0,
+  sigma <> 0 -> (forall v, In v vs -> (v < length ws)%nat) -> bias_force_correct (BHist k norm sigma grid vs) ws x0.
+Proof. exact bias_force_correct_hist. Qed.
+Print Assumptions C01_bias_force_correct_histogramRestraint.
+Theorem C01_bias_guard_widen : forall b ws x0, bias_guard b ws x0 -> bias_guard_w b ws x0.
+Proof. exact bias_guard_widen. Qed.
+Print Assumptions C01_bias_guard_widen.
+
 (* ---- closed statement: guards only --------------------------------------------------------------------------- *)
 Theorem C01_forces_are_minus_gradient : forall (cf : config) (s : SYS),
   (forall v c, In v (cf_vars cf) -> In c (cv_cvcs v) -> cvc_guard_w (cf_cell cf) c s) ->
-  (forall b, In b (cf_biases cf) -> bias_guard b (cf_vars cf) (var_values Rops PI cf s)) ->
+  (forall b, In b (cf_biases cf) -> bias_guard_w b (cf_vars cf) (var_values Rops PI cf s)) ->
   forall a k, (a < length s)%nat ->
     is_derive (fun t => energy Rops PI cf (set_coord s a k t)) (coord Rops s a k)
               (- vget k (nth a (forces Rops PI cf s) (vzero Rops))).
-Proof. exact forces_are_minus_gradient_w. Qed.
+Proof. exact forces_are_minus_gradient_ww. Qed.
 Print Assumptions C01_forces_are_minus_gradient.
 
 (* ---- run-time modifications of the superposition (SuperposModel.v) ----------------------------------------------
    A state = live componentCoeff / componentExp / active flag of every component + the flags colvar::init computed
    once (linear, homogeneous, periodic, period).  Events: modifycvcs (coefficient and/or exponent of one component),
-   cvcflags.  No event refreshes the flags: after any history they are those of the initial parameters. *)
+   cvcflags.  modifycvcs recomputes the periodicity from the live components (update_periodicity, repair 21b0745b); no event
+   refreshes width, linear and homogeneous (vflags): after any history they are those of the initial parameters. *)
 Theorem C01_history_keeps_flags : forall (h : list (@event R)) (sts : list (@vstate R)),
-  map vflags (run_history h sts) = map vflags sts.
+  map vflags (run_history Rops h sts) = map vflags sts.
 Proof. exact history_keeps_flags. Qed.
 Print Assumptions C01_history_keeps_flags.
 (* For every initial superposition, every list of biases and EVERY history of modifications: the forces applied in the
@@ -238,7 +248,7 @@ Theorem C01_history_forces_are_minus_gradient :
   forall cell (descr : list (R * list (@scvc R))) bs (h : list (@event R)) (s : SYS),
   let cf := effective cell (state_after Rops descr h) bs in
   (forall v c, In v (cf_vars cf) -> In c (cv_cvcs v) -> cvc_guard_w (cf_cell cf) c s) ->
-  (forall b, In b (cf_biases cf) -> bias_guard b (cf_vars cf) (var_values Rops PI cf s)) ->
+  (forall b, In b (cf_biases cf) -> bias_guard_w b (cf_vars cf) (var_values Rops PI cf s)) ->
   forall a k, (a < length s)%nat ->
     is_derive (fun t => h_energy Rops PI cell descr bs h (set_coord s a k t)) (coord Rops s a k)
               (- vget k (nth a (h_forces Rops PI cell descr bs h s) (vzero Rops))).
@@ -266,8 +276,8 @@ Proof. unfold exp_ok_at. split; [left; lia|right; lra]. Qed.
    harmonic restraint and an upper wall *)
 Example C01_example_guards :
   (forall v c, In v (cf_vars ex_cf) -> In c (cv_cvcs v) -> cvc_guard_w (cf_cell ex_cf) c ex_sys) /\
-  (forall b, In b (cf_biases ex_cf) -> bias_guard b (cf_vars ex_cf) (var_values Rops PI ex_cf ex_sys)).
-Proof. exact ex_guards_w. Qed.
+  (forall b, In b (cf_biases ex_cf) -> bias_guard_w b (cf_vars ex_cf) (var_values Rops PI ex_cf ex_sys)).
+Proof. exact ex_guards_ww. Qed.
 (* the periodic-cell case of image_ok is inhabited *)
 Example C01_example_cell : image_ok true (Some (8, 8, 8)) (0, 0, 0) (5, 1, 1) /\ ~ plain true (Some (8, 8, 8)).
 Proof. exact ex_image_cell. Qed.
@@ -288,9 +298,13 @@ Proof. exact ex_stale. Qed.
 Example C01_example_history_guards :
   let cf := effective None (state_after Rops ex_descr ex_hist) (cf_biases ex_cf) in
   (forall v c, In v (cf_vars cf) -> In c (cv_cvcs v) -> cvc_guard_w (cf_cell cf) c ex_sys) /\
-  (forall b, In b (cf_biases cf) -> bias_guard b (cf_vars cf) (var_values Rops PI cf ex_sys)).
+  (forall b, In b (cf_biases cf) -> bias_guard_w b (cf_vars cf) (var_values Rops PI cf ex_sys)).
 Proof. exact ex_hist_guards. Qed.
 (* an atom at (1, 2, 2) satisfies the guards of polarTheta and polarPhi *)
 Example C01_example_polar :
   kind_guard_w None (mkCvc 1 1%Z KPolarTheta [exp_g]) exp_sys /\ kind_guard_w None (mkCvc 1 1%Z KPolarPhi [exp_g]) exp_sys.
 Proof. exact ex_polar. Qed.
+
+(* the guard of histogramRestraint is satisfiable *)
+Example C01_example_hist : bias_guard_w (BHist 10 (1 / 2) 1 [(0, 1 / 4); (2, 1 / 8)] [0%nat]) [mkCvar 1 false 0 []] [3].
+Proof. exact ex_hist_guard. Qed.
